@@ -77,16 +77,26 @@ SurgWellFormed(e) ==
   /\ ParWellFormed(e)
 
 \* ---------------------------------------------------------------------------
-\* Valid: what Mesh.is_valid checks (no duplicate point, every point in some cell) and non-degenerate cells
+\* Valid: what Mesh.is_valid checks (no duplicate point, every point in some cell) and non-degenerate cells.
+\* Each part is demanded of the results when the operands have it (an operation is not blamed for a defect of its
+\* input), and unconditionally of the operations whose purpose it is: remove_duplicate_nodes / + / @ merge coincident
+\* points, remove_unused_nodes / restrict / remove_elements / trace drop unused ones.
 UsedVertices(m) == UNION {VSet(m.t[k]) : k \in DOMAIN m.t}
 NoDuplicatePoints(m) == \A u, v \in DOMAIN m.p : u # v => m.p[u] # m.p[v]
-ValidMesh(m, allowUnused, lowerDim) ==
+AllUsed(m)           == UsedVertices(m) = DOMAIN m.p
+DistinctVertices(m)  == \A k \in DOMAIN m.t : IsInjectiveSeq(m.t[k])
+CellsNonDegenerate(m) == \A k \in DOMAIN m.t : NonDegenerate(m.kind, GeoCellSeq(m, k))
+PreAll(e, P(_)) == \A j \in DOMAIN e.pre : P(e.pre[j])
+NeedNoDup(e)   == e.op \in {"remove_duplicate_nodes", "add", "matmul"} \/ PreAll(e, NoDuplicatePoints)
+NeedAllUsed(e) == /\ e.op # "matmul"                        \* the results of @ share one point array by design
+                  /\ e.op \in {"remove_unused_nodes", "restrict", "remove_elements", "trace"} \/ PreAll(e, AllUsed)
+Valid(e) == \A j \in DOMAIN e.post :
+  LET m == e.post[j] IN
   /\ Len(m.t) >= 1
-  /\ \A k \in DOMAIN m.t : IsInjectiveSeq(m.t[k])
-  /\ NoDuplicatePoints(m)
-  /\ allowUnused \/ UsedVertices(m) = DOMAIN m.p
-  /\ lowerDim \/ \A k \in DOMAIN m.t : NonDegenerate(m.kind, GeoCellSeq(m, k))
-Valid(e) == \A j \in DOMAIN e.post : ValidMesh(e.post[j], e.op = "matmul", e.op = "trace")
+  /\ PreAll(e, DistinctVertices) => DistinctVertices(m)
+  /\ NeedNoDup(e) => NoDuplicatePoints(m)
+  /\ NeedAllUsed(e) => AllUsed(m)
+  /\ (e.op # "trace" /\ PreAll(e, DistinctVertices) /\ PreAll(e, CellsNonDegenerate)) => CellsNonDegenerate(m)
 
 \* ---------------------------------------------------------------------------
 \* splitting: the children partition their parent cell
@@ -130,7 +140,7 @@ ProductCell(c1, c2) == {x \o z : x \in c1, z \in c2}
 Project(x, proj) == [i \in DOMAIN proj |-> x[proj[i]]]
 NoRepeatedCell(m) == Cardinality(GeoCells(m)) = Len(m.t)
 CellsAreExpectedPointSets(e) ==
-  /\ \A j \in DOMAIN e.post : NoRepeatedCell(e.post[j])
+  /\ PreAll(e, NoRepeatedCell) => \A j \in DOMAIN e.post : NoRepeatedCell(e.post[j])
   /\ CASE e.op \in SubsetOps    -> GeoCells(Post(e)) = {GeoCell(Pre(e), k) : k \in KeptCells(e)}
        [] e.op = "add"          -> GeoCells(Post(e)) = GeoCells(e.pre[1]) \cup GeoCells(e.pre[2])
        [] e.op = "matmul"       -> /\ Len(e.post) = Len(e.pre)
@@ -183,7 +193,8 @@ SameMeasure(e) ==
 \* a result never sit at the same point (with CellsAreExpectedPointSets this fixes the incidence structure);
 \* the results of @ share one point array
 SharedVertexStructure(e) ==
-  /\ \A j \in DOMAIN e.post : \A u, v \in UsedVertices(e.post[j]) : u # v => e.post[j].p[u] # e.post[j].p[v]
+  /\ NeedNoDup(e) => \A j \in DOMAIN e.post :
+                        \A u, v \in UsedVertices(e.post[j]) : u # v => e.post[j].p[u] # e.post[j].p[v]
   /\ e.op = "matmul" => \A j \in DOMAIN e.post : e.post[j].p = e.post[1].p
 
 \* ---------------------------------------------------------------------------
